@@ -62,20 +62,28 @@ def load_json_data(filename, username="master"):
 
 def load_metadata(username="master"):
     """For the given user, load metadata for all theory files."""
-    theory_cache[username] = dict()
-    item_index[username] = dict()
+    # Install the new cache only after every file was read: a failure half-way
+    # must not leave a partial cache behind for later loads.
+    new_cache = dict()
     for f in os.listdir(user_dir(username)):
         if f.endswith('.json'):
             filename = f[:-5]
             data = load_json_data(filename, username)
             timestamp = os.path.getmtime(user_file(filename, username))
-            theory_cache[username][filename] = {
+            new_cache[filename] = {
                 'imports': data['imports'],
                 'description': data['description']
             }
+    theory_cache[username] = new_cache
+    item_index[username] = dict()
 
-    # Immediately check for topological order.
-    check_topological_sort(username)
+    # Immediately check for topological order. If there is a cycle, forget the
+    # metadata so that the next load reports the error again.
+    try:
+        check_topological_sort(username)
+    except TheoryException:
+        del theory_cache[username]
+        raise
 
 def check_topological_sort(username="master"):
     """For the given user, check the import relations have no cycles."""
@@ -174,12 +182,11 @@ def load_theory_cache(filename, username="master"):
                     theory.thy.unchecked_extend(item.get_extension())
 
         # Use this theory to parse the content of current theory
-        cache['timestamp'] = timestamp
         data = load_json_data(filename, username)
-        cache['content'] = []
+        content = []
         for index, item in enumerate(data['content']):
             item = items.parse_item(item)
-            cache['content'].append(item)
+            content.append(item)
             if item.error is None:
                 exts = item.get_extension()
                 theory.thy.unchecked_extend(exts)
@@ -190,6 +197,10 @@ def load_theory_cache(filename, username="master"):
                         name = ext.name
                     item_index[username][(ext.ty, name)] = (filename, timestamp, index)
 
+    # Record the result (and the timestamp it is valid for) only now, after the
+    # file was read and parsed completely.
+    cache['content'] = content
+    cache['timestamp'] = timestamp
     return cache
 
 def query_item_index(username, filename, ext_ty, name):
